@@ -505,7 +505,7 @@ func init() {
 		Rule:        "PRNG sequences of addRecord / setRecord / deleteRecords / updateSOA over 7 names (tokens, registered and unregistered sub-names, a name two levels below its token), types {A, AAAA, CNAME, TXT, SOA, 0, 255}, CNAME graphs of depth 0..4 with self-loops and cycles, 17 adds of one type, missing record ids, registrations of enclosing names interleaved, clock jumps onto token expiry; after every operation getRecords (ordered), getAllRecords (set), resolve with and without trailing dot for every pool name and type, SOA serials and the conflicting-record rule are compared with the model. distinct = (method, signers, reason, outcome).",
 		Assumptions: append(tb, "resolve over exactly three CNAME links and getRecords for a name with an unregistered intermediate parent are logged, not judged"),
 		Batches:     tier(64, 768), Helpers: []string{"holder"}, Chunk: 4,
-		Floors: []string{"addRecord:ok", "addRecord:fail", "setRecord:ok", "setRecord:fail", "deleteRecords:ok", "deleteRecords:fail", "resolve-ok-links0", "resolve-ok-links1", "resolve-ok-links2", "resolve-refuses-long-chain-or-cycle", "resolve-trailing-dot", "conflicting-record-blocks-registration", "records-unreachable", "clock-at-token-expiry"},
+		Floors: []string{"clock-at-sub-name-token-expiry-under-a-live-parent", "addRecord:ok", "addRecord:fail", "setRecord:ok", "setRecord:fail", "deleteRecords:ok", "deleteRecords:fail", "resolve-ok-links0", "resolve-ok-links1", "resolve-ok-links2", "resolve-refuses-long-chain-or-cycle", "resolve-trailing-dot", "conflicting-record-blocks-registration", "records-unreachable", "clock-at-token-expiry"},
 		Run:    runC12,
 	})
 	runner.Register(&runner.Check{
